@@ -68,6 +68,7 @@ func cmdCheck(repo, verif string, args []string) int {
 	}
 	loadS := time.Since(t0).Seconds()
 	findings := loadFindings(verif)
+	p.findings = findings
 	cr := &checkResult{prop: prop, tier: tier}
 	var ids []string
 	for id, c := range p.contracts.Funcs {
@@ -113,8 +114,8 @@ func cmdCheck(repo, verif string, args []string) int {
 		for _, o := range cr.obligs {
 			if o.Name == f.Obligation {
 				o.Finding = f
-				if f.Region != "" {
-					o.Region = f.Region
+				if f.Region != "" && o.vc != nil {
+					o.Region = o.vc.regions[o.Name]
 				}
 			}
 		}
@@ -144,21 +145,28 @@ func cmdCheck(repo, verif string, args []string) int {
 	os.RemoveAll(replayDir)
 	violations := 0
 	var knownPrinted []string
+	seenKnown := map[string]bool{}
 	for _, o := range append(append([]*Obligation{}, cr.obligs...), cr.lemmaObs...) {
 		if o.ok() {
 			if o.Finding != nil && o.Finding.Region != "" {
 				// proved outside the region; the finding itself is reported
-				msg := fmt.Sprintf("KNOWN-FINDING: property=%s %s [obligation %s proved outside the region: %s]", prop, o.Finding.What, o.Name, o.Finding.Region)
-				fmt.Println(msg)
-				knownPrinted = append(knownPrinted, msg)
+				msg := fmt.Sprintf("KNOWN-FINDING: property=%s %s [proved outside the region: %s]", prop, o.Finding.What, o.Finding.Region)
+				if !seenKnown[msg] {
+					seenKnown[msg] = true
+					fmt.Println(msg)
+					knownPrinted = append(knownPrinted, msg)
+				}
 			}
 			continue
 		}
 		if o.Finding != nil && o.Finding.Region == "" {
 			// whole obligation is a recorded finding
-			msg := fmt.Sprintf("KNOWN-FINDING: property=%s %s [obligation %s]", prop, o.Finding.What, o.Name)
-			fmt.Println(msg)
-			knownPrinted = append(knownPrinted, msg)
+			msg := fmt.Sprintf("KNOWN-FINDING: property=%s %s", prop, o.Finding.What)
+			if !seenKnown[msg] {
+				seenKnown[msg] = true
+				fmt.Println(msg)
+				knownPrinted = append(knownPrinted, msg)
+			}
 			continue
 		}
 		violations++
